@@ -39,7 +39,7 @@ static ABT_xstream xs[NXS];
 static int xs_state[NXS]; /* 0 none, 1 running, 2 joined */
 
 static char cur_line[4096];
-static volatile long op_seq, wd_limit_s = 30;
+static volatile long op_seq, wd_limit_s = 12;
 
 #define CK(call)                                                                                                       \
     do {                                                                                                               \
